@@ -295,6 +295,7 @@ Definition guar_write (wrap : gname) (ps : list gname) : option aspec :=
     else if gname_eqb m "setIfEQCommand" then Some (mkA 4 (Some 6%nat) (Some true))
     else if gname_eqb m "delIfEQCommand" then Some (A_eq 3)
     else if gname_eqb m "setbitCommand" then Some (A_eq 4)
+    else if gname_eqb m "setrangeCommand" then Some (A_ge 4)
     else if gname_eqb m "lsetCommand" then Some (A_eq 4)
     else if gname_eqb m "ltrimCommand" then Some (A_eq 4)
     else if gname_eqb m "zaddCommand" then Some (mkA 4 None (Some true))
@@ -397,6 +398,8 @@ Lemma spec_delifeq args f n a : delIfEQCommand args f = LProp n a -> prop_ok (A_
 Proof. unfold delIfEQCommand. intro H. destr_in H. apply spec_ifeq_tail in H. apply prop_ok_first; [exact H|]. sat_lia. Qed.
 Lemma spec_setbit args n a : setbitCommand args = LProp n a -> prop_ok (A_eq 4) false args n a.
 Proof. unfold setbitCommand. intro H. destr_in H. apply prop_ok_first; [exact H|]. sat_lia. Qed.
+Lemma spec_setrange args n a : setrangeCommand args = LProp n a -> prop_ok (A_ge 4) false args n a.
+Proof. unfold setrangeCommand. intro H. destr_in H. apply prop_ok_first; [exact H|]. sat_lia. Qed.
 Lemma spec_lset args n a : lsetCommand args = LProp n a -> prop_ok (A_eq 4) false args n a.
 Proof. unfold lsetCommand. intro H. destr_in H. apply prop_ok_first; [exact H|]. sat_lia. Qed.
 Lemma spec_ltrim args f n a : ltrimCommand args f = LProp n a -> prop_ok (A_eq 4) false args n a.
@@ -464,7 +467,8 @@ Proof.
    | apply spec_wrapKAnySubkey with (1 := H) | apply spec_wrapKAnySubkeyAndMax with (1 := H)
    | apply spec_wrapKV with (1 := H) | apply spec_wrapKVV with (1 := H) | apply spec_wrapKSVSV with (1 := H)
    | apply spec_set with (1 := H) | apply spec_setnx with (1 := H) | apply spec_setifeq with (1 := H)
-   | apply spec_delifeq with (1 := H) | apply spec_setbit with (1 := H) | apply spec_lset with (1 := H)
+   | apply spec_delifeq with (1 := H) | apply spec_setbit with (1 := H) | apply spec_setrange with (1 := H)
+   | apply spec_lset with (1 := H)
    | apply spec_ltrim with (1 := H) | apply spec_zadd with (1 := H) | apply spec_zrem with (1 := H)
    | apply spec_zincrby with (1 := H) | apply spec_zremrangebyrank with (1 := H)
    | apply spec_zremrangebyscore with (1 := H) | apply spec_zremrangebylex with (1 := H)
